@@ -47,7 +47,7 @@ Theorem status_matches_cause :
   (forall v, teval v (t_esd gen_tables) = teval v spec_esd) /\
   (forall s v, teval v (t_ft gen_tables s) = teval v (spec_ft s)) /\
   (forall v, teval v (t_bt gen_tables) = teval v spec_bt) /\
-  (forall h2 a, t_end_arm gen_tables h2 a = spec_end_arm h2 a) /\
+  (forall h2 a v, teval v (t_end_arm gen_tables h2 a) = teval v (spec_end_arm h2 a)) /\
   t_known_codes gen_tables = spec_known_codes /\
   t_retries gen_tables = 3%nat /\ t_guard_ge gen_tables = true.
 Proof. exact status_matches_cause_proof. Qed.
@@ -77,12 +77,13 @@ Theorem no_truncated_as_complete :
         || existsb is_default (evs redir x i)) = true).
 Proof. exact no_truncated_as_complete_proof. Qed.
 
-(** An abort (forced termination / close with an unfinished response) only ever
-    happens once bytes of the backend's response are on the wire; before that
-    the request gets a default answer (502 / 504 / 503). *)
+(** On an HTTP/1 frontend an abort (forced termination / close with an unfinished
+    response) only ever happens once bytes of the backend's response are on the
+    wire; before that the request gets a default answer (502 / 504 / 503).  (An
+    H2 client is sent RST_STREAM at once in that case, which the source pins.) *)
 Theorem abort_only_after_response_started :
-  forall (redir : option N) (h2 : bool) (history : list input) (i : input) (b : bool),
-    let x := run_st redir (fresh, init_conn h2) history in
+  forall (redir : option N) (history : list input) (i : input) (b : bool),
+    let x := run_st redir (fresh, init_conn false) history in
     In (EvAbort b) (evs redir x i) -> b = true.
 Proof. exact abort_only_after_start_proof. Qed.
 
